@@ -97,6 +97,10 @@ type Contract struct {
 	Extern          bool        // no body to verify (trusted contract)
 	Captures        []SpecParam // for closures: extra typed names
 	Inline          bool
+	IterFn          string // callback-iteration clause: the callee calls parameter IterFn once for idx = 0..IterCount-1 with argument IterArg(idx)
+	IterCount       Clause
+	IterArg         Clause
+	CallInvs        map[string][]Clause
 }
 
 type ContractSet struct {
@@ -108,9 +112,18 @@ type ContractSet struct {
 	LockInvs   map[string]*LockInv // key: pkgpath.Type + "." + field
 	Lemmas     []*Lemma
 	Lua        []*LuaContract
+	TypeInvs   map[string]*TypeInv // key: pkgpath.TypeName
 	Dropped    []string // call prefixes treated as no-ops
 	Pure       []string
 	Errors     []string
+}
+
+// TypeInv is an object invariant: holds for every allocated object of the type whenever none of its methods is running.
+type TypeInv struct {
+	TypeName string
+	Recv     string
+	Invs     []Clause
+	PkgPath  string
 }
 
 type Lemma struct {
@@ -126,7 +139,7 @@ type Lemma struct {
 }
 
 func newContractSet() *ContractSet {
-	return &ContractSet{Funcs: map[string]*Contract{}, Specs: map[string]*SpecFunc{}, Ghosts: map[string]*GhostVar{}, LockInvs: map[string]*LockInv{}}
+	return &ContractSet{Funcs: map[string]*Contract{}, Specs: map[string]*SpecFunc{}, Ghosts: map[string]*GhostVar{}, LockInvs: map[string]*LockInv{}, TypeInvs: map[string]*TypeInv{}}
 }
 
 var clauseKeywords = map[string]bool{
@@ -134,7 +147,7 @@ var clauseKeywords = map[string]bool{
 	"ghost": true, "property": true, "float": true, "overflow": true, "trusted": true, "pure": true, "nopanic": true,
 	"may_panic": true, "func": true, "spec": true, "lockinv": true, "guarded_by": true, "extern": true, "lemma": true,
 	"let": true, "captures": true, "hyp": true, "goal": true, "drop": true, "purepkg": true, "flag": true, "results": true,
-	"inline": true, "allocates": true, "havoc_heap": true, "package": true, "specfn": true, "lua": true, "keys": true, "args": true, "intargs": true,
+	"inline": true, "allocates": true, "havoc_heap": true, "package": true, "specfn": true, "iterates": true, "typeinv": true, "lua": true, "keys": true, "args": true, "intargs": true,
 }
 
 func stripComment(s string) string {
@@ -417,7 +430,7 @@ func (cs *ContractSet) ParseFile(path, pkgPath string) error {
 			}
 			cur = &Contract{Key: key, Header: hdr, PkgPath: pkgPath, File: path, Line: ll.line, RecvName: rn, ParamNames: pn, HasNames: hn,
 				Closure: cl, Loops: map[string]*LoopSpec{}, CallAsserts: map[string][]Clause{}, CallAssumes: map[string][]Clause{},
-				GhostAt: map[string][]GhostAssign{}, Flags: map[string]bool{}, Extern: ext}
+				GhostAt: map[string][]GhostAssign{}, Flags: map[string]bool{}, Extern: ext, CallInvs: map[string][]Clause{}}
 			cs.Funcs[key] = cur
 			cs.Order = append(cs.Order, cur)
 		case "spec", "specfn":
@@ -509,6 +522,31 @@ func (cs *ContractSet) ParseFile(path, pkgPath string) error {
 			if expr != "" {
 				curLock.Invs = append(curLock.Invs, cs.clause(expr, path, ll.line))
 			}
+		case "typeinv":
+			// typeinv (b *bucket): expr
+			cur, curLemma, curLock = nil, nil, nil
+			open := strings.Index(rest, "(")
+			cl := matchParen(rest, open)
+			col := strings.Index(rest, ":")
+			if open != 0 || cl < 0 || col < cl {
+				errf("bad typeinv header")
+				continue
+			}
+			recv := strings.Fields(normGeneric(rest[1:cl]))
+			if len(recv) != 2 {
+				errf("bad typeinv receiver")
+				continue
+			}
+			tn := strings.TrimPrefix(recv[1], "*")
+			if !strings.Contains(tn, ".") {
+				tn = pkgPath + "." + tn
+			}
+			ti := cs.TypeInvs[tn]
+			if ti == nil {
+				ti = &TypeInv{TypeName: tn, Recv: recv[0], PkgPath: pkgPath}
+				cs.TypeInvs[tn] = ti
+			}
+			ti.Invs = append(ti.Invs, cs.clause(strings.TrimSpace(rest[col+1:]), path, ll.line))
 		case "guarded_by":
 			if curLock == nil {
 				errf("guarded_by outside lockinv")
@@ -660,11 +698,24 @@ func (cs *ContractSet) ParseFile(path, pkgPath string) error {
 				body := strings.TrimSpace(rest[i+1:])
 				if strings.HasPrefix(body, "assert ") {
 					cur.CallAsserts[id] = append(cur.CallAsserts[id], cs.clause(strings.TrimSpace(body[7:]), path, ll.line))
+				} else if strings.HasPrefix(body, "invariant ") {
+					cur.CallInvs[id] = append(cur.CallInvs[id], cs.clause(strings.TrimSpace(body[10:]), path, ll.line))
 				} else if strings.HasPrefix(body, "assume ") {
 					cur.CallAssumes[id] = append(cur.CallAssumes[id], cs.clause(strings.TrimSpace(body[7:]), path, ll.line))
 				} else {
 					errf("bad call clause body")
 				}
+			case "iterates":
+				// iterates <param> count <expr> arg <expr>
+				i1 := strings.Index(rest, " count ")
+				i2 := strings.Index(rest, " arg ")
+				if i1 < 0 || i2 < i1 {
+					errf("bad iterates clause (want: iterates <param> count <expr> arg <expr>)")
+					continue
+				}
+				cur.IterFn = strings.TrimSpace(rest[:i1])
+				cur.IterCount = cs.clause(strings.TrimSpace(rest[i1+7:i2]), path, ll.line)
+				cur.IterArg = cs.clause(strings.TrimSpace(rest[i2+5:]), path, ll.line)
 			case "float":
 				cur.Flags["float_"+rest] = true
 			case "overflow":
